@@ -200,7 +200,7 @@ impl Display for CreateTable {
         //   `CREATE TABLE t (a INT) AS SELECT a from t2`
         write!(
             f,
-            "CREATE {or_replace}{external}{global}{temporary}{transient}{volatile}TABLE {if_not_exists}{name}",
+            "CREATE {or_replace}{external}{global}{transient}{temporary}{volatile}TABLE {if_not_exists}{name}",
             or_replace = if self.or_replace { "OR REPLACE " } else { "" },
             external = if self.external { "EXTERNAL " } else { "" },
             global = self.global
@@ -220,6 +220,13 @@ impl Display for CreateTable {
         )?;
         if let Some(on_cluster) = &self.on_cluster {
             write!(f, " ON CLUSTER {}", on_cluster)?;
+        }
+        // LIKE / CLONE come right after the name (and ON CLUSTER), where the parser reads them
+        if let Some(l) = &self.like {
+            write!(f, " LIKE {l}")?;
+        }
+        if let Some(c) = &self.clone {
+            write!(f, " CLONE {c}")?;
         }
         if !self.columns.is_empty() || !self.constraints.is_empty() {
             write!(f, " ({}", display_comma_separated(&self.columns))?;
@@ -241,15 +248,6 @@ impl Display for CreateTable {
         // Only for SQLite
         if self.without_rowid {
             write!(f, " WITHOUT ROWID")?;
-        }
-
-        // Only for Hive
-        if let Some(l) = &self.like {
-            write!(f, " LIKE {l}")?;
-        }
-
-        if let Some(c) = &self.clone {
-            write!(f, " CLONE {c}")?;
         }
 
         match &self.hive_distribution {
